@@ -629,7 +629,7 @@ func ruleC12(prog *Program, rep *Report) {
 	ruleTruthMatrix(prog, rep)
 	ruleRadix(prog, rep)
 	rulePresenceByNil(prog, rep) // a null member must reach the operators as null, not as Nothing
-	rulePrecAgree(prog, rep)      // "parentheses combine exactly as the script prints": parser and printer use one precedence relation
+	rulePrecAgree(prog, rep)     // "parentheses combine exactly as the script prints": parser and printer use one precedence relation
 	ruleDivGuard(prog, rep, []string{"jp:script.go"}, nil, 5)
 }
 
